@@ -51,7 +51,7 @@ def secret_nodes(S):
         if e.kind == "index":
             return False
         # the counter of enumerate(): `(usize, T)` tuples are not field sensitive below depth 1
-        if e.kind == "copy" and e.dst[0] != "F" and fg.node_type(e.dst) == "usize" and e.src[0] != "F":
+        if e.kind in ("copy", "ref", "base2field") and e.dst[0] != "F" and fg.node_type(e.dst).lstrip("&") == "usize" and e.src[0] != "F":
             sty = fg.node_type((e.src[0], e.src[1], None))
             if "(usize, " in sty:
                 return False
